@@ -14,10 +14,11 @@ import (
 )
 
 type gTy struct {
-	Kind string // string bool bytes date decimal float integer key timestamp any | object oneof enum | array map
-	Ref  string // schema name (own package) for object/oneof/enum
-	Item *gTy
-	Spec string // j5s spelling of a scalar, e.g. float:FLOAT64
+	Kind   string // string bool bytes date decimal float integer key timestamp any | object oneof enum | array map
+	Ref    string // schema name (own package) for object/oneof/enum
+	Item   *gTy
+	Spec   string   // j5s spelling of a scalar, e.g. float:FLOAT64
+	Inline *gSchema // object / oneof / enum declared in place (becomes a nested message or enum)
 }
 
 func (t gTy) j5s() string {
@@ -35,6 +36,9 @@ func (t gTy) j5s() string {
 
 // refName returns the schema a type leads to through arrays and maps.
 func (t gTy) refName() string {
+	if t.Inline != nil {
+		return ""
+	}
 	switch t.Kind {
 	case "object", "oneof", "enum":
 		return t.Ref
@@ -50,6 +54,7 @@ type gProp struct {
 	Filterable bool
 	Desc       string   // description line (printed as a leading comment)
 	Attrs      []string // extra attribute lines, e.g. rules.pattern = "..."
+	Mark       string   // "" | "?" (optional) | "!" (required)
 }
 
 type gSchema struct {
@@ -77,6 +82,7 @@ type gService struct {
 
 type gTopic struct {
 	Name     string
+	Kind     string // publish upsert event reqres
 	Messages []string
 }
 
@@ -119,6 +125,7 @@ type gctx struct {
 	schemas  []gSchema
 	awkward  bool
 	decorate bool // descriptions and validation rules with characters that need escaping (C05)
+	inline   bool // inline nested objects / oneofs / enums, optional and required marks
 }
 
 var descPool = []string{"Plain words.", "With \"double quotes\" inside", "back\\slash and 'single'", "unicode é ü 漢字 😀", "slashes // and /* stars */", "colon: semi; brace { } [ ]",
@@ -148,7 +155,7 @@ func (g *gctx) decorateProp(p *gProp) {
 			p.Attrs = append(p.Attrs, fmt.Sprintf("rules.minimum = %d", g.r.Range(0, 100)))
 		}
 		if g.r.Chance(50) {
-			p.Attrs = append(p.Attrs, fmt.Sprintf("rules.maximum = %s", vh.Pick(g.r, []string{"100", "2147483647", "4294967295"})))
+			p.Attrs = append(p.Attrs, fmt.Sprintf("rules.maximum = %s", vh.Pick(g.r, []string{"100", "2147483647", "65535"})))
 		}
 	case "array":
 		if g.r.Chance(50) {
@@ -203,7 +210,39 @@ func (g *gctx) refTy(kinds ...string) (gTy, bool) {
 	return gTy{Kind: s.Kind, Ref: s.Name}, true
 }
 
+func (g *gctx) inlineTy(depth int) gTy {
+	r := g.r
+	switch r.Intn(4) {
+	case 0:
+		return gTy{Kind: "enum", Inline: &gSchema{Kind: "enum"}}
+	case 1:
+		in := &gSchema{Kind: "oneof"}
+		for _, nm := range g.propNames(r.Range(1, 2)) {
+			t := vh.Pick(r, scalarSpecs[:2])
+			if rt, ok := g.refTy("object"); ok && r.Chance(50) {
+				t = rt
+			}
+			in.Props = append(in.Props, gProp{Name: nm, Ty: t, Filterable: t.Kind == "bool"})
+		}
+		return gTy{Kind: "oneof", Inline: in}
+	}
+	in := &gSchema{Kind: "object"}
+	for _, nm := range g.propNames(r.Range(1, 3)) {
+		var t gTy
+		if depth < 2 && r.Chance(25) {
+			t = g.inlineTy(depth + 1)
+		} else {
+			t = g.anyTy(1)
+		}
+		in.Props = append(in.Props, gProp{Name: nm, Ty: t, Filterable: t.Kind == "bool"})
+	}
+	return gTy{Kind: "object", Inline: in}
+}
+
 func (g *gctx) anyTy(depth int) gTy {
+	if g.inline && depth == 0 && g.r.Chance(12) {
+		return g.inlineTy(1)
+	}
 	switch g.r.Intn(10) {
 	case 0, 1, 2:
 		if t, ok := g.refTy("object", "oneof", "enum"); ok {
@@ -238,6 +277,24 @@ func (g *gctx) props(n int) []gProp {
 	for _, nm := range names {
 		t := g.anyTy(0)
 		pr := gProp{Name: nm, Ty: t, Filterable: t.Kind == "bool"}
+		if t.Inline != nil && g.r.Chance(30) && len(g.schemas) > 0 {
+			// an inline declaration named like a top-level schema: the nested type shadows it
+			top := vh.Pick(g.r, g.schemas).Name
+			pr.Name = strings.ToLower(top[:1]) + top[1:]
+			for _, o := range out {
+				if o.Name == pr.Name {
+					pr.Name = nm
+				}
+			}
+		}
+		if g.inline && t.Inline == nil && t.Kind != "array" && t.Kind != "map" {
+			switch g.r.Intn(8) {
+			case 0:
+				pr.Mark = "?"
+			case 1:
+				pr.Mark = "!"
+			}
+		}
 		g.decorateProp(&pr)
 		out = append(out, pr)
 	}
@@ -247,7 +304,7 @@ func (g *gctx) props(n int) []gProp {
 func genPackage(r *vh.Rand, awkward bool) *gPackage { return genPackageOpt(r, awkward, false) }
 
 func genPackageOpt(r *vh.Rand, awkward, decorate bool) *gPackage {
-	g := &gctx{r: r, awkward: awkward, decorate: decorate}
+	g := &gctx{r: r, awkward: awkward, decorate: decorate, inline: r.Chance(50)}
 	p := &gPackage{Pkg: vh.Pick(r, pkgNames), Awkward: awkward}
 	// declare schema names first so that references can be cyclic
 	n := r.Range(2, 6)
@@ -307,7 +364,7 @@ func genPackageOpt(r *vh.Rand, awkward, decorate bool) *gPackage {
 	}
 	if r.Chance(30) {
 		noun := vh.Pick(r, nouns)
-		p.Topics = append(p.Topics, gTopic{Name: noun + "Feed", Messages: []string{"Do" + noun, "Undo" + noun}[:r.Range(1, 2)]})
+		p.Topics = append(p.Topics, gTopic{Name: noun + "Feed", Kind: vh.Pick(r, []string{"publish", "publish", "upsert", "event", "reqres"}), Messages: []string{"Do" + noun, "Undo" + noun}[:r.Range(1, 2)]})
 	}
 	if r.Chance(25) {
 		noun := vh.Pick(r, []string{"Account", "Shipment", "Policy"})
@@ -354,6 +411,42 @@ func (g *gctx) method(noun string, k int) gMethod {
 			m.Req = append(m.Req, gProp{Name: nm, Ty: t, Filterable: t.Kind == "bool"})
 		}
 	}
+	// request properties whose names are related to a path parameter's name by prefix, suffix,
+	// extension or letter case: they are NOT path parameters
+	if npath > 0 && r.Chance(60) {
+		used := map[string]bool{}
+		for _, nm := range names {
+			used[nm] = true
+		}
+		for k := r.Range(1, 3); k > 0; k-- {
+			base := names[r.Intn(npath)]
+			var rel string
+			switch r.Intn(6) {
+			case 0: // proper prefix
+				rel = base[:r.Range(1, len(base)-1)]
+			case 1: // proper suffix, lower-cased first letter
+				suf := base[r.Range(1, len(base)-1):]
+				rel = strings.ToLower(suf[:1]) + suf[1:]
+			case 2: // extension
+				rel = base + vh.Pick(r, []string{"x", "s", "Ref", "two"})
+			case 3: // all lower case
+				rel = strings.ToLower(base)
+			case 4: // doubled
+				rel = base + base[:1]
+			case 5: // prefix up to the first capital ("account" of "accountId")
+				cut := strings.IndexFunc(base[1:], func(c rune) bool { return c >= 'A' && c <= 'Z' })
+				if cut > 0 {
+					rel = base[:cut+1]
+				}
+			}
+			if rel == "" || used[rel] || rel == "id" && false {
+				continue
+			}
+			used[rel] = true
+			t := vh.Pick(r, scalarSpecs)
+			m.Req = append(m.Req, gProp{Name: rel, Ty: t, Filterable: t.Kind == "bool"})
+		}
+	}
 	m.Path = "/" + strings.Join(segs, "/")
 	switch r.Intn(12) {
 	case 0:
@@ -380,10 +473,35 @@ func propLine(ind, kw string, p gProp) string {
 		body = append(body, "listRules.filtering.filterable = true")
 	}
 	body = append(body, p.Attrs...)
-	if len(body) > 0 {
-		return fmt.Sprintf("%s%s %s %s {\n%s\t%s\n%s}\n", ind, kw, p.Name, p.Ty.j5s(), ind, strings.Join(body, "\n"+ind+"\t"), ind)
+	mark := ""
+	if p.Mark != "" {
+		mark = p.Mark + " "
 	}
-	return fmt.Sprintf("%s%s %s %s\n", ind, kw, p.Name, p.Ty.j5s())
+	if in := p.Ty.Inline; in != nil {
+		var sb strings.Builder
+		fmt.Fprintf(&sb, "%s%s %s %s%s {\n", ind, kw, p.Name, mark, in.Kind)
+		for _, b := range body {
+			sb.WriteString(ind + "\t" + b + "\n")
+		}
+		switch in.Kind {
+		case "enum":
+			sb.WriteString(ind + "\toption FAST\n" + ind + "\toption SLOW\n")
+		case "oneof":
+			for _, q := range in.Props {
+				sb.WriteString(propLine(ind+"\t", "option", q))
+			}
+		default:
+			for _, q := range in.Props {
+				sb.WriteString(propLine(ind+"\t", "field", q))
+			}
+		}
+		sb.WriteString(ind + "}\n")
+		return sb.String()
+	}
+	if len(body) > 0 {
+		return fmt.Sprintf("%s%s %s %s%s {\n%s\t%s\n%s}\n", ind, kw, p.Name, mark, p.Ty.j5s(), ind, strings.Join(body, "\n"+ind+"\t"), ind)
+	}
+	return fmt.Sprintf("%s%s %s %s%s\n", ind, kw, p.Name, mark, p.Ty.j5s())
 }
 
 func descLines(ind string, desc []string) string {
@@ -438,11 +556,18 @@ func (p *gPackage) text() string {
 		sb.WriteString("}\n\n")
 	}
 	for _, tp := range p.Topics {
-		fmt.Fprintf(&sb, "topic %s publish {\n", tp.Name)
-		for _, m := range tp.Messages {
-			fmt.Fprintf(&sb, "\tmessage %s {\n\t\tfield note string\n\t}\n", m)
+		switch tp.Kind {
+		case "upsert", "event":
+			fmt.Fprintf(&sb, "topic %s %s {\n\tentityName = \"thing\"\n\tmessage {\n\t\tfield note string\n\t}\n}\n\n", tp.Name, tp.Kind)
+		case "reqres":
+			fmt.Fprintf(&sb, "topic %s reqres {\n\trequest %s {\n\t\tfield note string\n\t}\n\treply %sDone {\n\t\tfield note string\n\t}\n}\n\n", tp.Name, tp.Messages[0], tp.Messages[0])
+		default:
+			fmt.Fprintf(&sb, "topic %s publish {\n", tp.Name)
+			for _, m := range tp.Messages {
+				fmt.Fprintf(&sb, "\tmessage %s {\n\t\tfield note string\n\t}\n", m)
+			}
+			sb.WriteString("}\n\n")
 		}
-		sb.WriteString("}\n\n")
 	}
 	if e := p.Entity; e != nil {
 		lower := strings.ToLower(e.Name[:1]) + e.Name[1:]
@@ -503,6 +628,7 @@ func (p *gPackage) reachable() []string {
 	}
 	seen := map[string]bool{}
 	var visit func(name string)
+	var visitTy func(t gTy)
 	visit = func(name string) {
 		s, ok := byName[name]
 		if !ok || seen[name] {
@@ -510,22 +636,31 @@ func (p *gPackage) reachable() []string {
 		}
 		seen[name] = true
 		for _, pr := range s.Props {
-			visit(pr.Ty.refName())
+			visitTy(pr.Ty)
 		}
+	}
+	visitTy = func(t gTy) {
+		if t.Inline != nil {
+			for _, q := range t.Inline.Props {
+				visitTy(q.Ty)
+			}
+			return
+		}
+		visit(t.refName())
 	}
 	for _, sv := range p.Services {
 		for _, m := range sv.Methods {
 			for _, pr := range m.Req {
-				visit(pr.Ty.refName())
+				visitTy(pr.Ty)
 			}
 			for _, pr := range m.Resp {
-				visit(pr.Ty.refName())
+				visitTy(pr.Ty)
 			}
 		}
 	}
 	if p.Entity != nil {
 		for _, pr := range p.Entity.Data {
-			visit(pr.Ty.refName())
+			visitTy(pr.Ty)
 		}
 	}
 	var out []string
